@@ -75,6 +75,9 @@ template<class F> struct CFloat { typedef F T; static constexpr int nf = 1; stat
 template<class F, class U> struct CBits { typedef F T; static constexpr int nf = 1; static constexpr int kind = 2;   // value token = bit pattern
   static T make(const Elem& e) { U u = (U) toull(e[0]); F f; std::memcpy(&f, &u, sizeof f); return f; }
   static Elem fields(const T& t) { U u; std::memcpy(&u, &t, sizeof u); return { std::to_string((unsigned long long) u) }; } };
+template<class F> struct CComplexT { typedef std::complex<F> T; static constexpr int nf = 2; static constexpr int kind = 13;
+  static T make(const Elem& e) { return T((F) toll(e[0]), (F) toll(e[1])); }
+  static Elem fields(const T& t) { return { std::to_string((long long) t.real()), std::to_string((long long) t.imag()) }; } };
 struct CComplex { typedef std::complex<double> T; static constexpr int nf = 2; static constexpr int kind = 3;
   static T make(const Elem& e) { return T((double) toll(e[0]), (double) toll(e[1])); }
   static Elem fields(const T& t) { return { std::to_string((long long) t.real()), std::to_string((long long) t.imag()) }; } };
@@ -136,6 +139,10 @@ template<class F> static bool dispatch(const std::string& ty, F&& f)
   if (ty == "big100") { f(Tag<CBig<100>>()); return true; }
   if (ty == "pr_id") { f(Tag<CPairID>()); return true; }
   if (ty == "pr_cl") { f(Tag<CPairCL>()); return true; }
+  if (ty == "uint") { f(Tag<CInt<unsigned int>>()); return true; }
+  if (ty == "ushort") { f(Tag<CInt<unsigned short>>()); return true; }
+  if (ty == "cfloat") { f(Tag<CComplexT<float>>()); return true; }
+  if (ty == "cldouble") { f(Tag<CComplexT<long double>>()); return true; }
   if (ty == "pr_li") { f(Tag<CPair<CInt<long long>, CInt<int>>>()); return true; }
   if (ty == "pr_il") { f(Tag<CPair<CInt<int>, CInt<long long>>>()); return true; }
   if (ty == "pr_pc") { f(Tag<CPair<CPod, CInt<char>>>()); return true; }
@@ -153,7 +160,8 @@ template<class F> static bool dispatch(const std::string& ty, F&& f)
 }
 static const char* ALLTYPES[] = { "int", "long", "uchar", "char", "short", "ulong", "llong", "float", "double", "ldouble", "cdouble",
   "fv_d3", "fv_i1", "fv_c3", "big64", "big100", "pr_id", "pr_cl", "pli", "ip",
-  "pr_li", "pr_il", "pr_pc", "pr_cp", "pr_ed", "pr_n", "big16", "big17", "big55", "fv_d2", "fv_l5" };
+  "pr_li", "pr_il", "pr_pc", "pr_cp", "pr_ed", "pr_n", "big16", "big17", "big55", "fv_d2", "fv_l5",
+  "uint", "ushort", "cfloat", "cldouble" };
 
 template<class C> static std::vector<typename C::T> make_buf(const std::string& s)
 {
@@ -171,8 +179,12 @@ template<class C> static std::string show_buf(const std::vector<typename C::T>& 
 static std::vector<int> ints(const std::string& s) { std::vector<int> r; if (s == "-" || s == "_") return r; for (auto& t : split(s, ',')) r.push_back((int) toll(t)); return r; }
 
 // ------------------------------------------------------------------ collectives
+template<class T> struct IsCplx : std::false_type {};
+template<class F> struct IsCplx<std::complex<F>> : std::true_type {};
 template<class T> struct OpsOf { static constexpr bool arith = std::is_arithmetic<T>::value && !std::is_same<T,bool>::value; static constexpr bool plus = arith; static constexpr bool order = arith; static constexpr bool xr = std::is_integral<T>::value && !std::is_same<T,bool>::value; };
 template<> struct OpsOf<std::complex<double>> { static constexpr bool arith = false, plus = true, order = false, xr = false; };
+template<> struct OpsOf<std::complex<float>> { static constexpr bool arith = false, plus = true, order = false, xr = false; };
+template<> struct OpsOf<std::complex<long double>> { static constexpr bool arith = false, plus = true, order = false, xr = false; };
 template<class K, int n> struct OpsOf<FieldVector<K,n>> { static constexpr bool arith = false, plus = true, order = false, xr = false; };
 template<int k> struct OpsOf<bigunsignedint<k>> { static constexpr bool arith = false, plus = true, order = true, xr = true; };
 template<class A, class B> struct OpsOf<std::pair<A,B>> { static constexpr bool arith = false, plus = false, order = false, xr = false; };
@@ -183,7 +195,7 @@ template<> struct OpsOf<IP> { static constexpr bool arith = false, plus = false,
 template<class T, class L> static bool with_fn(const std::string& fn, L&& l)
 {
   if constexpr (OpsOf<T>::plus) { if (fn == "plus") { l(std::plus<T>()); return true; } if (fn == "uplus") { l(PlusF<T>()); return true; } }
-  if constexpr (OpsOf<T>::arith || std::is_same<T, std::complex<double>>::value) { if (fn == "mult") { l(std::multiplies<T>()); return true; } }
+  if constexpr (OpsOf<T>::arith || IsCplx<T>::value) { if (fn == "mult") { l(std::multiplies<T>()); return true; } }
   if constexpr (OpsOf<T>::order) { if (fn == "min") { l(Min<T>()); return true; } if (fn == "max") { l(Max<T>()); return true; } }
   if constexpr (OpsOf<T>::xr) { if (fn == "xor") { l(XorF<T>()); return true; } }
   if constexpr (std::is_same<T, std::pair<int,double>>::value) { if (fn == "maxsum") { l(MaxSumF()); return true; } }
@@ -200,16 +212,18 @@ static std::string do_coll(Comm& cc, bool ismpi, const Case& c, int me)
   int root = (int) toll(c.t[7]); int len = (int) toll(c.t[8]);
   std::vector<int> lens = ints(c.t[9]), displs = ints(c.t[10]);
   auto ins = split(c.t[11], ';'), outs = split(c.t[12], ';');
-  std::vector<T> in = make_buf<C>(ins.at(me)), out = make_buf<C>(outs.at(me));
+  std::vector<T> in0 = make_buf<C>(ins.at(me)), out = make_buf<C>(outs.at(me));
+  const bool alias = fn == "alias";            // exact aliasing: in and out are the same storage
+  std::vector<T>& in = alias ? out : in0;
   bool ok = true;
   if (op == "sum1" || op == "prod1" || op == "min1" || op == "max1") {
     if constexpr (OpsOf<T>::plus) { if (op == "sum1") out[0] = cc.sum(in[0]); }
-    if constexpr (OpsOf<T>::arith || std::is_same<T, std::complex<double>>::value) { if (op == "prod1") out[0] = cc.prod(in[0]); }
+    if constexpr (OpsOf<T>::arith || IsCplx<T>::value) { if (op == "prod1") out[0] = cc.prod(in[0]); }
     if constexpr (OpsOf<T>::order) { if (op == "min1") out[0] = cc.min(in[0]); if (op == "max1") out[0] = cc.max(in[0]); }
   }
   else if (op == "sumN" || op == "prodN" || op == "minN" || op == "maxN") {
     if constexpr (OpsOf<T>::plus) { if (op == "sumN") cc.sum(out.data(), len); }
-    if constexpr (OpsOf<T>::arith || std::is_same<T, std::complex<double>>::value) { if (op == "prodN") cc.prod(out.data(), len); }
+    if constexpr (OpsOf<T>::arith || IsCplx<T>::value) { if (op == "prodN") cc.prod(out.data(), len); }
     if constexpr (OpsOf<T>::order) { if (op == "minN") cc.min(out.data(), len); if (op == "maxN") cc.max(out.data(), len); }
   }
   else if (op == "allred2") ok = with_fn<T>(fn, [&](auto F) { cc.template allreduce<decltype(F)>(in.data(), out.data(), len); });
@@ -265,6 +279,19 @@ static std::string do_p2p(Communication<MPI_Comm>& cc, const Case& c, int me)
   if (me > 1) return "-";
   if (op == "rrecv") { if (me == 0) { cc.send(sent, 1, tag); return "-"; } auto r = cc.rrecv(std::move(pre), 0, tag); return show_buf<C>(r); }
   if (op == "rrecv_lv") { if (me == 0) { const std::vector<T>& cs = sent; cc.send(cs, 1, tag); return "-"; } cc.rrecv(pre, 0, tag); return show_buf<C>(pre); }
+  if (op == "rrecv_twice") {   // the same receive object re-used: first the whole sequence, then only its first half
+    std::vector<T> half(sent.begin(), sent.begin() + sent.size() / 2);
+    if (me == 0) { cc.send(sent, 1, tag); cc.send(half, 1, tag); return "-"; }
+    cc.rrecv(pre, 0, tag); std::string r = show_buf<C>(pre); cc.rrecv(pre, 0, tag); return r + "/" + show_buf<C>(pre); }
+  if (op == "rrecv_status" || op == "recv_status") {   // explicit MPI_Status argument instead of the default MPI_STATUS_IGNORE
+    if (me == 0) { cc.send(sent, 1, tag); return "-"; }
+    MPI_Status st; std::memset(&st, 0x7f, sizeof st);
+    std::vector<T> r = op == "rrecv_status" ? cc.rrecv(std::move(pre), 0, tag, &st) : cc.recv(std::move(pre), 0, tag, &st);
+    int cnt = -1; MPI_Get_count(&st, MPITraits<T>::getType(), &cnt);
+    return show_buf<C>(r) + "/src=" + std::to_string(st.MPI_SOURCE) + ",tag=" + std::to_string(st.MPI_TAG == tag ? 1 : 0) + ",count=" + std::to_string(cnt); }
+  if (op == "irecv0") {        // irecv into an empty dynamic object is rejected (documented: reserve the size first)
+    if (me == 0) return "-";
+    try { auto f = cc.irecv(std::vector<T>(), 0, tag); return "accepted"; } catch (ParallelError&) { return "ParallelError"; } }
   if (op == "recv") { if (me == 0) { cc.send(sent, 1, tag); return "-"; } auto r = cc.recv(std::move(pre), 0, tag); return show_buf<C>(r); }
   if (op == "isend_irecv") {
     if (me == 0) { auto f = cc.isend(std::move(sent), 1, tag); f.wait(); return "-"; }
@@ -301,8 +328,8 @@ static std::string do_dt(Communication<MPI_Comm>& cc, const Case& c, int me)
   if (via == "send") { if (me == 0) { src.resize(count); cc.send(src, 1, tag); return "-"; } cc.recv(dst, 0, tag); }
   else if (via == "scalar") { if (me == 0) { cc.send(src[0], 1, tag); return "-"; } cc.recv(dst[0], 0, tag); }
   else if (via == "bcast") { if (me == 0) { cc.broadcast(src.data(), count, 0); return "-"; } cc.broadcast(dst.data(), count, 0); }
-  else if (via == "raw") { if (me == 0) { MPI_Send(src.data(), count, MPITraits<T>::getType(), 1, tag, MPI_COMM_WORLD); return "-"; }
-    MPI_Recv(dst.data(), count, MPITraits<T>::getType(), 0, tag, MPI_COMM_WORLD, MPI_STATUS_IGNORE); }
+  else if (via == "raw") { if (me == 0) { MPI_Send(src.data(), count, MPITraits<T>::getType(), 1, tag, (MPI_Comm) cc); return "-"; }
+    MPI_Recv(dst.data(), count, MPITraits<T>::getType(), 0, tag, (MPI_Comm) cc, MPI_STATUS_IGNORE); }
   else return "UNSUPPORTED";
   return hexof(dst.data(), dst.size() * sizeof(T));
 }
@@ -362,6 +389,12 @@ static bool pk_op(MPIPack& p, const std::string& op, std::size_t prelen, std::st
 {
   auto it = split(op, '|');
   if (it[0] == "k") { p.seek(it[1] == "end" ? (int) p.size() : (int) toll(it[1])); r += "/K" + pk_state(p); return true; }
+  if (it[0] == "m") { MPIPack q(std::move(p)); MPIPack w(std::move(q)); p = std::move(w); r += "/Z" + pk_buf(p) + "," + pk_state(p); return true; }   // move ctor x2, move assignment
+  if (it[0] == "q") {   // a pack as the payload of a pack:  p << inner   (inner holds the given raw bytes)
+    Communication<MPI_Comm> ccp(MPI_COMM_WORLD); MPIPack inner(ccp); for (unsigned char b : unhex(it[1])) inner << (char) b;
+    p << inner; r += "/B" + pk_buf(p) + "," + pk_state(p); return true; }
+  if (it[0] == "u") {   // p >> inner
+    Communication<MPI_Comm> ccp(MPI_COMM_WORLD); MPIPack inner(ccp, 3); p >> inner; r += "/R" + pk_buf(inner) + "," + pk_state(p); return true; }
   if (it[0] == "z") { p.resize((std::size_t) toll(it[1])); r += "/Z" + pk_buf(p) + "," + pk_state(p); return true; }
   if (it[0] == "g") { p.enlarge((int) toll(it[1])); r += "/Z" + pk_buf(p) + "," + pk_state(p); return true; }
   if (it[0] == "s" || it[0] == "d") {
@@ -391,8 +424,12 @@ static std::string do_pks(Communication<MPI_Comm>& cc, const Case& c, int me)
   if (xi < c.t.size() && cc.size() < 2) return "UNSUPPORTED";
   std::string r;
   if (me == 0) {
-    MPIPack p(cc);
-    for (std::size_t i = 2; i < xi; ++i) if (!pk_op(p, c.t[i], prelen, r)) return "UNSUPPORTED";
+    // first op n|<size>: MPIPack(comm, size) with a non-default size (zero-filled buffer, cursor 0)
+    std::size_t first = 2; std::size_t isz = 0;
+    if (c.t.size() > 2 && c.t[2].rfind("n|", 0) == 0) { isz = (std::size_t) toll(c.t[2].substr(2)); first = 3; }
+    MPIPack p(cc, isz);
+    if (first == 3) r += "/Z" + pk_buf(p) + "," + pk_state(p);
+    for (std::size_t i = first; i < xi; ++i) if (!pk_op(p, c.t[i], prelen, r)) return "UNSUPPORTED";
     if (xi < c.t.size()) cc.send(p, 1, tag);
     return r.empty() ? "-" : r;
   }
@@ -422,6 +459,10 @@ template<> std::string basic_desc<float>() { return "b4.4"; }
 template<> std::string basic_desc<double>() { return "b8.8"; }
 template<> std::string basic_desc<long double>() { return "b16.16"; }
 template<> std::string basic_desc<std::complex<double>>() { return "b16.8"; }
+template<> std::string basic_desc<std::complex<float>>() { return "b8.4"; }
+template<> std::string basic_desc<std::complex<long double>>() { return "b32.16"; }
+template<> std::string basic_desc<unsigned int>() { return "b4.4"; }
+template<> std::string basic_desc<unsigned short>() { return "b2.2"; }
 template<class T> static Layout scalar_layout(const std::string& d) { std::string f = "0:" + std::to_string(sizeof(T)); return { sizeof(T), d, f, f }; }
 template<class T> static Layout generic_layout() { return scalar_layout<T>("g" + std::to_string(sizeof(T))); }
 template<class K, int n> static Layout fv_layout()
@@ -437,18 +478,30 @@ template<class A, class B> static Layout pair_layout(const std::string& da, cons
 { typedef std::pair<A,B> T; int d1 = (int) offsetof(T, first), d2 = (int) offsetof(T, second);
   std::string f = std::to_string(d1) + ":" + std::to_string(sizeof(A)) + "," + std::to_string(d2) + ":" + std::to_string(sizeof(B));
   return { sizeof(T), "pr(" + da + "," + db + "," + std::to_string(d1) + "," + std::to_string(d2) + "," + std::to_string(sizeof(T)) + ")", f, f }; }
+// bytes that follow a byte pattern written through the public interface (robust against garbage in padding bytes, which the compiler
+// may write when it copies members with wide stores): byte i belongs to the member iff it equals the pattern for all four patterns
+template<class F> static std::pair<int,int> follows(F&& img)
+{
+  const unsigned char pats[4] = { 0x00, 0xFF, 0x5A, 0xA5 };
+  std::vector<unsigned char> im[4]; for (int k = 0; k < 4; ++k) im[k] = img(pats[k]);
+  int lo = -1, hi = -1;
+  for (std::size_t i = 0; i < im[0].size(); ++i) { bool all = true; for (int k = 0; k < 4; ++k) all = all && im[k][i] == pats[k];
+    if (all) { if (lo < 0) lo = (int) i; hi = (int) i; } }
+  return { lo, hi - lo + 1 };
+}
 struct PLIProbe { std::pair<int,int> local, attr, pub, state; };
 static PLIProbe probe_pli()
 { auto a = image<PLI>((std::size_t) 0, Flag(0), false);
-  PLIProbe p; p.local = diffrange(a, image<PLI>(~(std::size_t) 0, Flag(0), false)); p.attr = diffrange(a, image<PLI>((std::size_t) 0, flagmax, false));
+  PLIProbe p; p.local = follows([&](unsigned char b) { std::size_t v; std::memset(&v, b, sizeof v); return image<PLI>(v, Flag(0), false); }); p.attr = diffrange(a, image<PLI>((std::size_t) 0, flagmax, false));
   p.pub = diffrange(a, image<PLI>((std::size_t) 0, Flag(0), true)); PLI s((std::size_t) 0, Flag(0), false); s.setState(DELETED); p.state = diffrange(a, image<PLI>(s)); return p; }
 static Layout pli_layout()
 { PLIProbe p = probe_pli();
   return { sizeof(PLI), "pl(" + std::to_string(p.attr.first) + "," + std::to_string(sizeof(PLI)) + ")", rg(p.attr), rg(p.local) + "," + rg(p.attr) + "," + rg(p.pub) + "," + rg(p.state) }; }
 static Layout ip_layout()
 { PLIProbe p = probe_pli(); PLI z((std::size_t) 0, Flag(0), false);
-  auto a = image<IP>(0, z); auto g = diffrange(a, image<IP>(-1, z));
-  auto l = diffrange(a, image<IP>(0, PLI(~(std::size_t) 0, Flag(0), false))); int dl = l.first - p.local.first;
+  auto g = follows([&](unsigned char b) { int v; std::memset(&v, b, sizeof v); return image<IP>(v, z); });
+  auto l = follows([&](unsigned char b) { std::size_t v; std::memset(&v, b, sizeof v); return image<IP>(0, PLI(v, Flag(0), false)); });
+  int dl = l.first - p.local.first;
   auto sh = [&](std::pair<int,int> r) { return std::to_string(r.first + dl) + ":" + std::to_string(r.second); };
   return { sizeof(IP), "ip(b4.4," + std::to_string(g.first) + "," + std::to_string(dl) + "," + pli_layout().desc + "," + std::to_string(sizeof(IP)) + ")",
            rg(g) + "," + sh(p.attr), rg(g) + "," + sh(p.local) + "," + sh(p.attr) + "," + sh(p.pub) + "," + sh(p.state) }; }
@@ -463,7 +516,8 @@ static std::string shift_ranges(const std::string& s, int d)
 template<class T> static Layout layout_of()
 {
   if constexpr (std::is_same<T,long long>::value || std::is_same<T,bool>::value || std::is_same<T,Pod>::value || std::is_enum<T>::value) return generic_layout<T>();
-  else if constexpr (std::is_arithmetic<T>::value || std::is_same<T,std::complex<double>>::value) return scalar_layout<T>(basic_desc<T>());
+  else if constexpr (std::is_arithmetic<T>::value || std::is_same<T,std::complex<double>>::value || std::is_same<T,std::complex<float>>::value
+                     || std::is_same<T,std::complex<long double>>::value) return scalar_layout<T>(basic_desc<T>());
   else if constexpr (IsFV<T>::value) return fv_layout<typename IsFV<T>::field, IsFV<T>::dim>();
   else if constexpr (IsBig<T>::value) return big_layout<IsBig<T>::bits>();
   else if constexpr (IsPair<T>::value) {
@@ -476,14 +530,19 @@ template<class T> static Layout layout_of()
 }
 
 // ------------------------------------------------------------------ main
-static std::string collect(const std::string& mine, int me, int P)
+// world rank 0 collects the observations; slot = position of this process in the printed line (its rank in the communicator under test)
+static std::string collect(const std::string& mine0, int slot, int me, int P)
 {
+  std::string mine = std::to_string(slot) + "#" + mine0;
   int n = (int) mine.size(); std::vector<int> ns(P), off(P);
   MPI_Gather(&n, 1, MPI_INT, ns.data(), 1, MPI_INT, 0, MPI_COMM_WORLD);
   int tot = 0; if (me == 0) for (int i = 0; i < P; ++i) { off[i] = tot; tot += ns[i]; }
   std::vector<char> all(tot + 1);
   MPI_Gatherv(const_cast<char*>(mine.data()), n, MPI_CHAR, all.data(), ns.data(), off.data(), MPI_CHAR, 0, MPI_COMM_WORLD);
-  std::string r; if (me == 0) for (int i = 0; i < P; ++i) { if (i) r += ";"; r += std::string(all.data() + off[i], ns[i]); }
+  std::string r;
+  if (me == 0) { std::vector<std::string> parts(P);
+    for (int i = 0; i < P; ++i) { std::string x(all.data() + off[i], ns[i]); auto h = x.find('#'); int k = (int) toll(x.substr(0, h)); parts.at(k) = x.substr(h + 1); }
+    for (int i = 0; i < P; ++i) { if (i) r += ";"; r += parts[i]; } }
   return r;
 }
 
@@ -500,22 +559,33 @@ int main(int argc, char** argv)
   }
   std::ifstream f(argv[1]); std::string line;
   Communication<No_Comm> nc;
+  // the communicators under test: world (through the default constructor argument), a duplicate, a split with REVERSED ranks,
+  // and MPI_COMM_SELF obtained through the converting constructor from Communication<No_Comm>
+  Communication<MPI_Comm> cdef;
+  MPI_Comm dupc, revc; MPI_Comm_dup(MPI_COMM_WORLD, &dupc); MPI_Comm_split(MPI_COMM_WORLD, 0, -me, &revc);
+  Communication<MPI_Comm> cdup(dupc), crev(revc), cself(nc);
+  Communication<MPI_Comm> ccopy(crev);          // copy of a Communication: must keep communicator, rank and size
   while (std::getline(f, line)) {
     Case c; { std::istringstream is(line); std::string t; while (is >> t) c.t.push_back(t); }
+    std::string kind = "@world";
+    if (!c.t.empty() && c.t[0][0] == '@') { kind = c.t[0]; c.t.erase(c.t.begin()); }
+    Communication<MPI_Comm>& cu = kind == "@dup" ? cdup : kind == "@rev" ? ccopy : kind == "@self" ? cself : cdef;
+    int cme = cu.rank();
+    int slot = kind == "@self" ? me : cme;
     std::string mine = "UNSUPPORTED";
     try {
       if (c.t.empty()) mine = "EMPTY";
       else if (c.t[0] == "coll") {
         bool ismpi = c.t[1] == "mpi";
-        if (!ismpi && me != 0) mine = "-";
+        if (!ismpi && cme != 0) mine = "-";
         else dispatch(c.t[4], [&](auto tag) { typedef typename decltype(tag)::Codec C;
-          if (ismpi) mine = do_coll<C>(cc, true, c, me); else mine = do_coll<C>(nc, false, c, 0); });
+          if (ismpi) mine = do_coll<C>(cu, true, c, cme); else mine = do_coll<C>(nc, false, c, 0); });
       }
-      else if (c.t[0] == "p2p") dispatch(c.t[2], [&](auto tag) { typedef typename decltype(tag)::Codec C; mine = do_p2p<C>(cc, c, me); });
-      else if (c.t[0] == "dt") dispatch(c.t[1], [&](auto tag) { typedef typename decltype(tag)::Codec C; mine = do_dt<C>(cc, c, me); });
-      else if (c.t[0] == "pack") mine = me == 0 ? do_pack(cc, c) : "-";
-      else if (c.t[0] == "pks") mine = do_pks(cc, c, me);
-      else if (c.t[0] == "layout") { if (me != 0) mine = "-"; else dispatch(c.t[1], [&](auto tag) { typedef typename decltype(tag)::Codec::T T;
+      else if (c.t[0] == "p2p") dispatch(c.t[2], [&](auto tag) { typedef typename decltype(tag)::Codec C; mine = do_p2p<C>(cu, c, cme); });
+      else if (c.t[0] == "dt") dispatch(c.t[1], [&](auto tag) { typedef typename decltype(tag)::Codec C; mine = do_dt<C>(cu, c, cme); });
+      else if (c.t[0] == "pack") mine = cme == 0 ? do_pack(cu, c) : "-";
+      else if (c.t[0] == "pks") mine = do_pks(cu, c, cme);
+      else if (c.t[0] == "layout") { if (cme != 0) mine = "-"; else dispatch(c.t[1], [&](auto tag) { typedef typename decltype(tag)::Codec::T T;
         int ps = 0; MPI_Pack_size(1, MPITraits<T>::getType(), MPI_COMM_WORLD, &ps); MPI_Aint lb, ext; MPI_Type_get_extent(MPITraits<T>::getType(), &lb, &ext);
         MPI_Aint tlb, text; MPI_Type_get_true_extent(MPITraits<T>::getType(), &tlb, &text);
         mine = "size=" + std::to_string(ps) + " extent=" + std::to_string((long) ext) + " sizeof=" + std::to_string(sizeof(T))
@@ -525,7 +595,7 @@ int main(int argc, char** argv)
         mine += " md=" + std::to_string(md.size()) + "x" + std::to_string(ts) + (decltype(md)::static_size ? "s" : "d"); }); }
     } catch (Dune::Exception& e) { mine = "EXC Dune"; }
     catch (std::exception& e) { mine = std::string("EXC std ") + e.what(); }
-    std::string all = collect(mine, me, P);
+    std::string all = collect(mine, slot, me, P);
     if (me == 0) std::cout << all << std::endl;
   }
   return 0;
